@@ -23,9 +23,18 @@ def build(entry):
     return [(NAMES[v["name"]], VAL[v["kind"]]) for v in entry["vbs"]], PTYPE[entry["ptype"]]
 
 
-def case(rec, cfg, agent, op, entry, sid=1, variant=0, es=0):
+def case(rec, cfg, agent, op, entry, sid=1, variant=0, es=0, rstyle=0):
+    """rstyle > 0 (v3 Reports): the session first completes an ordinary exchange with an agent at boots 3 / time 5000, then the judged
+    request is answered by a Report as agents send them when they could not authenticate the request: no MAC, and a clock that is zero
+    (1), behind within the same boots (2) or of an earlier boots (3).  The mapping of the reply may not depend on that history."""
     first = rec.n
     s = rawdrv.RawSession(rec, cfg, sid=sid)
+    if rstyle:
+        w0, _ = s.send("get", ["1.3.6.1.4.1.9999.1.0"])
+        if w0 is not None:
+            r0 = ag.Request(cfg, w0)
+            s.inject(agent.reply(cfg, r0, [(NAMES["a"], ("int", 1))], boots=3, time=5000))
+            s.recv("get")
     if op == "get":
         w, exc = s.send("get", ["1.3.6.1.4.1.9999.1.0"])
     else:
@@ -39,7 +48,11 @@ def case(rec, cfg, agent, op, entry, sid=1, variant=0, es=0):
             # an agent that rejects a message before reading the scoped PDU cannot echo the request-id (RFC 3412 7.1):
             # only the msgID ties such a Report to the request
             rid = [req.reqid, 0, 2 ** 31 - 1, (req.reqid + 1) & 0x7FFFFFFF][variant % 4]
-            d = agent.reply(cfg, req, vbs, ptype="report", reqid=rid)
+            if rstyle:
+                bt = {1: (0, 0), 2: (3, 4000), 3: (2, 9000)}[rstyle]
+                d = agent.reply(cfg, req, vbs, ptype="report", reqid=rid, mac="absent", enc="plain", flag_auth=False, flag_priv=False, boots=bt[0], time=bt[1])
+            else:
+                d = agent.reply(cfg, req, vbs, ptype="report", reqid=rid)
         else:
             # the statement speaks of the varbinds of the matching reply, whatever error-status / error-index it carries
             d = agent.reply(cfg, req, vbs, ptype=ptype, es=es, ei=(1 if es and vbs else 0))
@@ -107,6 +120,11 @@ def run(tier):
                 a, b = case(rec, std[cn], agent, op, e, variant=ei)
                 runs.append((a, b, dict(cfg=cn, op=op, entry=e)))
                 chk.case((cn, op, json.dumps(e, sort_keys=True)), nontrivial=(e["ptype"] != 0 and (len(e["vbs"]) > 0 or e["ptype"] == 8)))
+                if e["ptype"] == 8 and std[cn].ver == "v3" and (len(e["vbs"]) <= 1 or (ei + ci) % 3 == 0):
+                    rstyle = 1 + (ei + ci) % 3
+                    a, b = case(rec, std[cn], agent, op, e, variant=ei, rstyle=rstyle)
+                    runs.append((a, b, dict(cfg=cn, op=op, entry=e, rstyle=rstyle, variant=ei)))
+                    chk.case((cn, op, "rstyle", rstyle, json.dumps(e, sort_keys=True)), nontrivial=True)
                 if e["ptype"] == 2 and (len(e["vbs"]) <= 1 or (ei + ci) % 5 == 0):
                     es = [2, 5, 1, 3, 18][(ei + ci) % 5]            # noSuchName, genErr, tooBig, badValue, inconsistentName
                     a, b = case(rec, std[cn], agent, op, e, variant=ei, es=es)
@@ -152,7 +170,7 @@ def replay(path):
         oids = info.get("oids") or (["1.3.6.1.4.1.9999.1.0"] if info["op"] == "get" else ["1.3.6.1.4.1.9999.1.0", "1.3.6.1.4.1.9999.2.0"])
         apiscripts.exchanges(rec, [(info["api"], scripts.std_cfgs()[info["cfg"]], info["op"], oids, api_answer(ag.Agent(), info["entry"], info.get("variant", 0)), info)])
     else:
-        a, b = case(rec, scripts.std_cfgs()[info["cfg"]], ag.Agent(), info["op"], info["entry"], es=info.get("es", 0))
+        a, b = case(rec, scripts.std_cfgs()[info["cfg"]], ag.Agent(), info["op"], info["entry"], es=info.get("es", 0), rstyle=info.get("rstyle", 0), variant=info.get("variant", 0))
     v = trace.validate("TraceSession.tla", "TraceSession.cfg", rec.close())
     if v["accepted"] and not v["fails"]:
         print("replay: accepted")
